@@ -122,6 +122,14 @@ func init() {
 			RealStub: "real: cobra commands (root, fan init, fan reset), YAML loading, RunDaemon, controllers, persistence (bbolt file surviving between processes); stub/model: libsensors stand-in, world devices, clock, scheduling, signal delivery",
 		},
 		PropertyPlan{
+			ID: "C17", Level: "exploration",
+			Families: []FamilyPlan{{Name: "c17", Quick: 160, Thorough: 6000, Chunk: 3, SeedTimeout: 300 * time.Second}},
+			Rule:     "each run = one generated fake hwmon tree (1-4 chips with names from a pool incl. near-duplicates, bus types isa/pci/virtual/acpi, fans and temperature inputs on arbitrary channels 1..7, unused devices besides the configured ones) and a YAML document whose hwmon entries select devices by a platform pattern matching exactly one chip (full string, prefix, upper case, regex) plus index or rpmChannel, explicit or defaulted pwmChannel; 30% name one non-existing device (unknown platform, index or channel out of range, for a fan or a sensor). The real daemon runs it in 3 processes with 3 seeded enumeration orders of the chips. Oracle: per entry the files its own goroutines read/write (grouped by goroutine id from the tick events) equal the reference binding computed from tree + selector, nothing else is touched, bindings agree across orders; a missing device must end start-up with an error naming the entry, no runtime-error panic, no device written. distinct = scenario hash; non-trivial = bindings judged or a missing-device document",
+			Probes:   []string{"bindings-judged", "missing-device-documents", "enumeration-orders-run"},
+			Assume:   []string{"trusted base: the stand-in's feature ordering (by type, then channel) matches libsensors, which defines what 'index' means", "a start-up failure announced through ui.Fatal (message, then panic trace) before any device was written counts as a clean failure if the message names the entry; a Go runtime-error panic does not"},
+			RealStub: "real: internal/hwmon discovery and matching, internal/backend.go sensor binding, cobra root command, RunDaemon, controllers; stub/model: libsensors (pure-Go stand-in enumerating the fake tree in a seeded order), world devices, clock, scheduling",
+		},
+		PropertyPlan{
 			ID: "C12", Level: "exploration",
 			Families: []FamilyPlan{{Name: "c12", Quick: 240, Thorough: 8000, Chunk: 10}},
 			Rule:     "each run = closed loop with full-range fans (min 0, max 255) and the direct algorithm, where the request equals the curve value; maps from the configuration (sparse, plateaus) or from the real sweep against a quantising driver; every cycle compares the write (or the decision not to write) with the reference nearest-supported-input computation. distinct = scenario hash; non-trivial = at least one write judged",
